@@ -20,6 +20,7 @@ CHECKS = {
  "C11": ("exploration", "the configuration matrix {client, server} x {enabled, disabled, legacy revision-zero raw peer} x {forward, reverse} and a list of 20 settings variants (revision lists, windows, wrong ids, wrong / missing first frames) are finite and drawn uniformly, each many times, under sampled schedules; oracles: settings sent iff both ends advertise, flow control (revision one, window updates) in use iff both enabled, highest common revision chosen, an empty list means revision zero, legacy peers never see settings / window updates / revision one, all four shapes work in every workable cell, unworkable exchanges fail the tunnel with an error and RPCs fail without virtual time passing", "6 C11"),
  "C12": ("exploration", "seeded search over histories of reverse tunnels opened (colliding / nil affinity keys) and closed (context cancel, server-side Close, carrier failure, Stop) interleaved at lock granularity with client goroutines routing RPCs and calling Ready / WaitForReady / AllReverseTunnels; at every quiescent point the registry is compared with the ground truth and round-robin is tested on every pool; routing, WaitForReady results and callbacks are checked against tunnel lifetimes; each pool's history is checked with porcupine for linearizability against a sequential set model", "6 C12"),
  "C13": ("exploration", "every frame of every explored run (message-flow, teardown, metadata families) is fed, at emission and at delivery, to a protocol automaton written from tunnel.proto (appendix A)", "6 C13, appendix A"),
+ "C15": ("exploration", "the Go race detector used as an invariant monitor over simulator-chosen schedules: in the -race build of the simulator every scheduler entry point is norace and brackets its hand-offs with RaceDisable/RaceEnable, locks and atomics wrap the real primitives, so a serialised execution carries exactly the production happens-before edges; families concurrent (RPC starts, one sender + one receiver per stream, Header/Trailer/option targets read right after their completion signal, Close/Stop/GracefulStop/InitiateShutdown/registry queries at random steps) and identity run under it; a report halts the worker and is attributed to the seed in flight; panics and deadlocks are found by the plain build of the same families", "6 C15, 2.8"),
  "C16": ("exploration", "seeded search over shape cases: raw client vs real server and raw server vs real client with 0-4 messages on the non-streaming side, arbitrary chunking, messages after the half-close/close, both network roles, negotiated and legacy; and applications that send twice on a non-streaming side (wire monitor: one envelope)", "6 C16"),
  "C14": ("exploration", "every run ends with a drain to final quiescence and a full shutdown; stream-table sizes are probed through the verif accessors and every goroutine the library started is accounted for by spawn site", "6 C14"),
  "C17": ("exploration", "seeded search over tunnel-opening metadata / peer / context values x {forward, reverse with several tunnels behind one handler, nested} x concurrent RPCs whose handlers and callers call TunnelMetadataFromIncomingContext / TunnelMetadataFromOutgoingContext / TunnelChannelFromContext / WithTunnelChannel, mutate the returned metadata in place and read again; compared with the ground truth of which tunnel carried the RPC. Schedules matter only through concurrency of mutation and routing; the race oracle for the same family is part of C15", "6 C17"),
